@@ -39,6 +39,8 @@ const (
 type ProfileChangeLogExtra struct {
 	UUID common.Hash
 	Key  string
+	// isNewKey is true if the profile had no such key before. It's used for undo. So no need to save or send to others
+	isNewKey bool
 }
 
 func (extra *ProfileChangeLogExtra) String() string {
@@ -585,9 +587,16 @@ func undoAssetCode(c *types.ChangeLog, processor types.ChangeLogProcessor) error
 func NewAssetCodeStateLog(address common.Address, processor types.ChangeLogProcessor, code common.Hash, key string, newVal string) (*types.ChangeLog, error) {
 	account := processor.GetAccount(address)
 
-	oldVal, err := account.GetAssetCodeState(code, key)
+	asset, err := account.GetAssetCode(code)
 	if err != nil && err != types.ErrAssetNotExist {
 		return nil, fmt.Errorf("can't create asset code state log: %v", err)
+	}
+	// No value is not the same as an empty value. The key is a part of the encoded asset
+	oldVal, isNewKey := "", false
+	if asset != nil {
+		var exist bool
+		oldVal, exist = asset.Profile[key]
+		isNewKey = !exist
 	}
 
 	return &types.ChangeLog{
@@ -597,8 +606,9 @@ func NewAssetCodeStateLog(address common.Address, processor types.ChangeLogProce
 		OldVal:  oldVal,
 		NewVal:  newVal,
 		Extra: &ProfileChangeLogExtra{
-			UUID: code,
-			Key:  key,
+			UUID:     code,
+			Key:      key,
+			isNewKey: isNewKey,
 		},
 	}, nil
 }
@@ -631,6 +641,15 @@ func undoAssetCodeState(c *types.ChangeLog, processor types.ChangeLogProcessor) 
 		return types.ErrWrongChangeLogData
 	}
 	accessor := processor.GetAccount(c.Address)
+	if extra.isNewKey {
+		// remove the key. Or it is left in the profile with an empty value and changes the asset code root
+		asset, err := accessor.GetAssetCode(extra.UUID)
+		if err != nil {
+			return err
+		}
+		delete(asset.Profile, extra.Key)
+		return accessor.SetAssetCode(extra.UUID, asset)
+	}
 	return accessor.SetAssetCodeState(extra.UUID, extra.Key, oldVal)
 }
 
